@@ -277,7 +277,8 @@ async fn run_script(steps: Vec<String>) -> (String, Option<String>) {
         let (last, mut ids): (i32, Vec<i32>) = { let m = table.lock().unwrap(); (m.0, m.1.iter().copied().collect()) }; ids.sort();
         let (rm, sm) = if drv == "running" { gauges.lock().unwrap().clone() } else { (vec![], vec![]) };
         let js = |v: &Vec<i32>| v.iter().map(|x| x.to_string()).collect::<Vec<_>>().join(",");
-        let (last_s, ids_s) = if drv == "running" { (last.to_string(), js(&ids)) } else { ("-".to_string(), String::new()) };
+        // the id table is shown after the driver has ended too (F31: a dead connection holds no ids)
+        let (last_s, ids_s) = (last.to_string(), js(&ids));
         out.push_str(&format!("| ops=[{}] wire=[{}] tab={}/[{}] rmap=[{}] smap=[{}] drv={} ", ops.join(" "), wire.join(","), last_s, ids_s, js(&rm), js(&sm), drv));
         // ---- oracles, independent of the model
         if drv == "panic" { oracle.get_or_insert("the connection driver panicked".into()); }
@@ -310,6 +311,11 @@ async fn run_script(steps: Vec<String>) -> (String, Option<String>) {
     }
     // C13 at the end of the script: with the driver running and every operation completed / every stream finished, nothing may be left
     let drv = driver_result.clone().unwrap_or("running".into());
+    // ... and on a connection whose driver has ended: once every operation has returned, no id is reserved (F31)
+    if drv != "running" && oracle.is_none() {
+        let all_done = views.iter().all(|v| { let v = v.lock().unwrap(); v.status.starts_with("ok:") || v.status.starts_with("err:") || v.status == "closed" || v.status.starts_with("starterr:") });
+        if all_done { let m = table.lock().unwrap(); if !m.1.is_empty() { oracle = Some(format!("the connection is gone and no operation is outstanding, but ids {:?} are still reserved", m.1)); } }
+    }
     if drv == "running" && oracle.is_none() {
         let all_done = views.iter().all(|v| { let v = v.lock().unwrap(); v.status.starts_with("ok:") || v.status.starts_with("err:") || v.status == "closed" || v.status.starts_with("starterr:") });
         if all_done {
@@ -382,7 +388,9 @@ fn gen_script(rng: &mut Rng, len: usize, flavour: u64) -> String {
             if let Some(&o) = streams.get(rng.below(streams.len().max(1) as u64) as usize) { if rng.chance(1, 6) { s.push(format!("C:{}", o)); } else if rng.chance(3, 4) { s.push(format!("N:{}", o)); } else { s.push(format!("F:{}", o)); } } else { s.push("A:1".into()); }
         } else if roll < 97 && flavour == 3 && !ended {
             s.push(format!("X:{}", *rng.pick(&["eof", "garbage", "rderr", "wrerr", "eof"]))); ended = true;
-        } else if flavour == 3 && rng.chance(1, 2) { s.push("H".into()); } else { s.push("A:1".into()); }
+        // (not while an operation is held: released after the last handle is gone, with its caller already timed out, it races the end of
+        // the driver - whether its request is still written is the select!'s choice and nobody's concern)
+        } else if flavour == 3 && held.is_empty() && rng.chance(1, 2) { s.push("H".into()); } else { s.push("A:1".into()); }
     }
     if flavour == 1 {
         for o in held.drain(..) { s.push(format!("E:{}", o)); }
